@@ -91,6 +91,39 @@ func valueAsInt(v proto.Value) (int64, bool) {
 	return 0, false
 }
 
+func valueAsIntSlice(v proto.Value) ([]int64, bool) {
+	var out []int64
+	switch v.Type() {
+	case proto.TypeSliceUint8:
+		for _, x := range v.SliceUint8() {
+			out = append(out, int64(x))
+		}
+	case proto.TypeSliceInt8:
+		for _, x := range v.SliceInt8() {
+			out = append(out, int64(x))
+		}
+	case proto.TypeSliceUint16:
+		for _, x := range v.SliceUint16() {
+			out = append(out, int64(x))
+		}
+	case proto.TypeSliceInt16:
+		for _, x := range v.SliceInt16() {
+			out = append(out, int64(x))
+		}
+	case proto.TypeSliceUint32:
+		for _, x := range v.SliceUint32() {
+			out = append(out, int64(x))
+		}
+	case proto.TypeSliceInt32:
+		for _, x := range v.SliceInt32() {
+			out = append(out, int64(x))
+		}
+	default:
+		return nil, false
+	}
+	return out, true
+}
+
 // c05: expansion of every component owner over raw container values and histories; direct oracle with exact rationals.
 func c05(args []string) {
 	c, fs := commonFlags("c05", args)
@@ -102,7 +135,7 @@ func c05(args []string) {
 	if c.tier == "thorough" {
 		perOwner = 3000
 	}
-	caseBudget := 6
+	caseBudget := 8
 	for _, ow := range owners {
 		fld := factory.CreateField(ow.mesg, ow.field)
 		comps := fld.Components
@@ -152,6 +185,25 @@ func c05(args []string) {
 				default:
 					copy(raw, r.bytes(width))
 				}
+				if width > 2 && r.chance(1, 3) { // structured: a run of zero (or one) bits at a random position, often at a 64-bit word boundary
+					start, n := r.intn(width*8), 1+r.intn(24)
+					if width > 8 && r.chance(2, 3) { // aligned with what one Pull carries from an upper 64-bit word into the lower one
+						cb := int(comps[0].Bits)
+						start = 64*(1+r.intn((width*8-1)/64)) + cb*r.intn(4)
+						n = cb + r.intn(cb+1)
+						if r.chance(1, 3) {
+							start -= r.intn(cb)
+						}
+					}
+					one := r.chance(1, 5)
+					for bi := start; bi < start+n && bi < width*8; bi++ {
+						if one {
+							raw[bi/8] |= 1 << uint(bi%8)
+						} else {
+							raw[bi/8] &^= 1 << uint(bi%8)
+						}
+					}
+				}
 				if accum && j > 0 && r.chance(2, 3) { // small forward steps exercise the wrapping counter
 					prev := binary.LittleEndian.Uint64(append(append([]byte(nil), raws[j-1]...), make([]byte, 8)...)[:8])
 					copy(raw, leBytes(prev+uint64(r.intn(300)), minInt(width, 8)))
@@ -162,7 +214,62 @@ func c05(args []string) {
 				rows[j] = row
 			}
 			fields := append([]proto.Field{fld}, extra...)
-			file := rawSeq(recordsFor(ow.mesg, fields, rows))
+			recs := recordsFor(ow.mesg, fields, rows)
+			// preamble: a message carrying the full-resolution destination fields on the wire; they seed the accumulators
+			seeds := map[byte]uint32{}
+			preamble := 0
+			if accum && r.chance(1, 2) {
+				var pdef, pdata []byte
+				for _, cm := range comps {
+					d := factory.CreateField(ow.mesg, cm.FieldNum)
+					if _, dup := seeds[cm.FieldNum]; dup || !cm.Accumulate || !d.Accumulate || d.Array || d.BaseType == basetype.Float32 || d.BaseType == basetype.Float64 || d.BaseType == basetype.String {
+						continue
+					}
+					sz := int(d.BaseType.Size())
+					var v uint64
+					switch r.intn(4) {
+					case 0:
+						v = uint64(r.intn(5000))
+					case 1:
+						v = uint64(1)<<uint(cm.Bits) + uint64(r.intn(1<<20))
+					case 2:
+						v = uint64(4000000 + r.intn(1<<28))
+					default:
+						v = r.word()
+					}
+					if sz < 8 {
+						v &= (uint64(1) << uint(8*sz)) - 1
+					}
+					inv := uint64(1)<<uint(8*sz) - 1
+					if sz == 8 {
+						inv = ^uint64(0)
+					}
+					if v == inv {
+						v--
+					}
+					pdef = append(pdef, cm.FieldNum, byte(sz), byte(d.BaseType))
+					pdata = append(pdata, leBytes(v, sz)...)
+					sv := v
+					if d.BaseType == basetype.Sint8 {
+						sv = uint64(int64(int8(v)))
+					} else if d.BaseType == basetype.Sint16 {
+						sv = uint64(int64(int16(v)))
+					} else if d.BaseType == basetype.Sint32 {
+						sv = uint64(int64(int32(v)))
+					}
+					seeds[cm.FieldNum] = uint32(sv)
+				}
+				if len(seeds) > 0 {
+					pre := []byte{0x41, 0, 0, byte(ow.mesg), byte(ow.mesg >> 8), byte(len(pdef) / 3)}
+					pre = append(pre, pdef...)
+					pre = append(pre, 0x01)
+					pre = append(pre, pdata...)
+					recs = append(pre, recs...)
+					preamble = 1
+					stat("seeded_accumulators", 1)
+				}
+			}
+			file := rawSeq(recs)
 			if r.chance(1, 5) && accum { // a second sequence: accumulators restart
 				file = append(file, rawSeq(recordsFor(ow.mesg, fields, rows[:1]))...)
 			}
@@ -220,7 +327,14 @@ func c05(args []string) {
 			totals := map[byte]uint64{}
 			lasts := map[byte]uint64{}
 			seen := map[byte]bool{}
-			for mi, m := range on.fits[0].Messages {
+			for k, v := range seeds {
+				seen[k], totals[k], lasts[k] = true, uint64(v), uint64(v)
+			}
+			for mi0, m := range on.fits[0].Messages {
+				mi := mi0 - preamble
+				if mi < 0 {
+					continue
+				}
 				if mi >= len(raws) {
 					break
 				}
@@ -236,6 +350,8 @@ func c05(args []string) {
 					bitsAll.Lsh(bitsAll, 8)
 					bitsAll.Or(bitsAll, big.NewInt(int64(raws[mi][i])))
 				}
+				arrWant := map[byte][]*big.Rat{}
+				var arrOrder []byte
 				for ci, cm := range comps {
 					mask := new(big.Int).Sub(new(big.Int).Lsh(big.NewInt(1), uint(cm.Bits)), big.NewInt(1))
 					val := new(big.Int).And(bitsAll, mask).Uint64()
@@ -266,8 +382,15 @@ func c05(args []string) {
 						emitJSON("FAIL", "", map[string]any{"kind": "component-missing", "owner": fmt.Sprint(ow), "component": ci, "bytes": fmt.Sprintf("%x", file)})
 						continue
 					}
+					if dest.Array && dest.BaseType != basetype.Float32 && dest.BaseType != basetype.Float64 && len(dest.Components) == 0 {
+						if _, ok := arrWant[cm.FieldNum]; !ok {
+							arrOrder = append(arrOrder, cm.FieldNum)
+						}
+						arrWant[cm.FieldNum] = append(arrWant[cm.FieldNum], want)
+						continue // appended to an array destination: compared as a list below
+					}
 					if dest.Array || dest.BaseType == basetype.Float32 || dest.BaseType == basetype.Float64 {
-						continue // appended to an array destination: compared through the model only
+						continue
 					}
 					g, ok := valueAsInt(got.Value)
 					if !ok {
@@ -299,6 +422,47 @@ func c05(args []string) {
 					default:
 						emitJSON("FAIL", "", js)
 					}
+				}
+				for _, dn := range arrOrder {
+					if m.FieldByNum(dn) != nil && !m.FieldByNum(dn).IsExpandedField {
+						continue // destination also on the wire: expansion appends to it (model only)
+					}
+					var got *proto.Field
+					for i := len(m.Fields) - 1; i >= 0; i-- {
+						if m.Fields[i].Num == dn {
+							got = &m.Fields[i]
+							break
+						}
+					}
+					js := map[string]any{"kind": "array-destination", "mesg": ow.mesg, "field": ow.field, "sub": ow.sub, "dest": dn, "bytes": fmt.Sprintf("%x", file)}
+					if got == nil {
+						emitJSON("FAIL", "", js)
+						continue
+					}
+					gs, ok := valueAsIntSlice(got.Value)
+					if !ok {
+						continue
+					}
+					dest := factory.CreateField(ow.mesg, dn)
+					maxv := new(big.Rat).SetInt64(int64(1)<<(8*uint(dest.BaseType.Size())) - 1)
+					wants := arrWant[dn]
+					js["got"], js["want_len"] = gs, len(wants)
+					if len(gs) != len(wants) {
+						emitJSON("FAIL", "", js)
+						continue
+					}
+					for i := range wants {
+						if wants[i].Cmp(maxv) > 0 || wants[i].Sign() < 0 {
+							continue
+						}
+						diff := new(big.Rat).Sub(wants[i], new(big.Rat).SetInt64(gs[i]))
+						if diff.Cmp(big.NewRat(1, 1)) >= 0 || diff.Cmp(big.NewRat(-1, 1)) <= 0 || (wants[i].IsInt() && diff.Sign() != 0) {
+							js["index"], js["want"] = i, wants[i].FloatString(6)
+							emitJSON("FAIL", "", js)
+							break
+						}
+					}
+					stat("oracle_array_destinations", 1)
 				}
 			}
 		}
